@@ -158,10 +158,8 @@ show_char!(show_char3, 3);
 /// Enter with a handler that (mode 0) writes nothing, (1) writes symbolic text,
 /// (2) changes the prompt: afterwards a fresh row shows the (new) prompt with the
 /// cursor behind it; the submitted line stays on its own row; output sits between.
-#[kani::proof]
-#[kani::unwind(9)]
-fn show_enter() {
-    let pre = any_pre();
+fn show_enter_body(valid: usize) {
+    let pre = any_pre_valid(valid);
     kani::assume(printable(&pre));
     let parsed = parse_line::<N, N1>(&pre.ebuf, pre.valid);
     kani::assume(!parsed.open && !parsed.help_open);
@@ -220,18 +218,36 @@ fn show_enter() {
         let ends_lf = out[ol - 1] == b'\n';
         assert!(t.rows == 1 + lfs + if ends_lf { 0 } else { 1 }, "C13: one line break added iff the output does not end with one");
     }
-    kani::cover!(wrote && ol == 2 && out[0] == b'x' && out[1] == b'\n', "output ending with LF");
-    kani::cover!(wrote && ol == 1 && out[0] == b'x', "output without LF");
-    kani::cover!(calls == 1 && mode == 2 && new_prompt != pre.prompt, "prompt changed by the handler");
-    kani::cover!(calls == 0 && pre.valid > 0, "blank line");
+    kani::cover!(valid < 1 || (wrote && ol == 2 && out[0] == b'x' && out[1] == b'\n'), "output ending with LF");
+    kani::cover!(valid < 1 || (wrote && ol == 1 && out[0] == b'x'), "output without LF");
+    kani::cover!(valid < 1 || (calls == 1 && mode == 2 && new_prompt != pre.prompt), "prompt changed by the handler");
+    kani::cover!(valid < 1 || calls == 0, "blank line");
+    kani::cover!(valid > 0 || calls == 0, "empty line");
 }
+
+macro_rules! show_len {
+    ($e:ident, $w:ident, $v:expr) => {
+        #[kani::proof]
+        #[kani::unwind(9)]
+        fn $e() {
+            show_enter_body($v);
+        }
+        #[kani::proof]
+        #[kani::unwind(9)]
+        fn $w() {
+            show_cli_write_body($v);
+        }
+    };
+}
+show_len!(show_enter_v0, show_cli_write_v0, 0);
+show_len!(show_enter_v1, show_cli_write_v1, 1);
+show_len!(show_enter_v2, show_cli_write_v2, 2);
+show_len!(show_enter_v3, show_cli_write_v3, 3);
 
 /// Cli::write(|w| w.write_str(t)) while a line is being edited: the line and its
 /// cursor are intact and redisplayed below the output.
-#[kani::proof]
-#[kani::unwind(9)]
-fn show_cli_write() {
-    let pre = any_pre();
+fn show_cli_write_body(valid: usize) {
+    let pre = any_pre_valid(valid);
     kani::assume(printable(&pre));
     let out: [u8; 2] = kani::any();
     let ol: usize = kani::any();
@@ -254,7 +270,7 @@ fn show_cli_write() {
     }
     let want_rows = if ol == 0 { 0 } else { lfs + if out[ol - 1] == b'\n' { 0 } else { 1 } };
     assert!(t.rows == want_rows, "C13: one line break added iff the output is non-empty and does not end with one");
-    kani::cover!(pre.cursor < pre.count && ol > 0, "cursor inside the line while writing");
+    kani::cover!(valid < 1 || (pre.cursor < pre.count && ol > 0), "cursor inside the line while writing");
     kani::cover!(ol == 0, "empty write");
 }
 
